@@ -1,6 +1,8 @@
 SPECIFICATION Spec
 CONSTANTS
   MaxDepth = 1
+  MutDepth = 0
+  DEV_StaleKeyOnMove = FALSE
 INVARIANT InvValid
 INVARIANT InvEquivalence
 INVARIANT InvPerturb
@@ -8,5 +10,9 @@ INVARIANT InvReorder
 INVARIANT InvNode
 INVARIANT InvHash
 INVARIANT InvThree
+INVARIANT InvMutate
+INVARIANT InvCurrent
+INVARIANT InvMotion
 PROPERTY PropPerturb
 PROPERTY PropReorder
+PROPERTY PropMutate
